@@ -32,7 +32,7 @@ THEOREMS = [
     "c12_endpoint_forms", "c12_data_only_announcement", "c12_live_or_raise", "c12_enter_bounded", "c12_enter_complete",
     "c12_race_exactly_once", "c12_race_count", "c12_request_leaves_idle", "c12_serial_requests",
     "c12_stream_chunk_independent", "c12_delivery_chunk_independent", "c12_stream_delivers_rendered",
-    "c12_server_messages_once_in_order", "c12_cleanup_closes_all",
+    "c12_stream_delivers_conformant", "c12_server_messages_once_in_order", "c12_cleanup_closes_all",
 ]
 RULE = (
     "establishment {endpoint announced in 7 accepted forms x LF/CRLF x padding x announce tick (early, mid, timeout-1), 4xx/5xx/3xx/204, "
@@ -64,7 +64,7 @@ ASSUMPTIONS = [
     "scripted instants never coincide with the timeout / connection-cap instants in the correspondence run (either outcome satisfies the property there)",
     "server messages on the event stream carry ids whose str() differs from str(id) of the client's requests in flight (the pending table is keyed by str(id))",
     "ids are compared with their JSON type (7 is not \"7\"), also for the messages the transport synthesises",
-    "a second endpoint announcement, two answers to one request, an answer after the synthesised timeout, data split over several data: lines and fields without the space after the colon are outside the quantifier and not generated",
+    "a second endpoint announcement, two answers to one request and an answer after the synthesised timeout are outside the quantifier and not generated; line ends are LF or CRLF (a lone CR is not treated as a line end, as in the Streamable-HTTP transport)",
     "no theorem depends on the connection cap or on the codes of the synthesised errors; the generator re-reads them from the source on every run (through constants and builder functions) and otherwise measures the cap on the running code and compares synthesised errors without their codes (see notes)",
     "release of real tasks/streams/clients is observed only through the mock transport (no real sockets in the quick tier)",
 ]
@@ -466,6 +466,27 @@ class Variants(Base):
         return "variants/" + "+".join(modes) + ("/" + ",".join(tags) if tags else "")
 
 
+class Grammar(Base):
+    name = "grammar"
+
+    def cases(self, ctx, budget):
+        ctx.exhaustive_parts.append("grammar: announcement forms x LF/CRLF x padding without the optional space; answer styles x modes x id types")
+        return G.grammar_cases(budget, ctx.sub_rng("c12-grammar", budget))
+
+    def oracle(self, case, o):
+        if o.get("harness_errors"):
+            return None
+        v = oracle_enter(case, o)
+        if v is None and (o.get("enter") or {}).get("k") == "yielded":
+            v = oracle_requests(case, o)
+        return v
+
+    def kind(self, case, o):
+        st = sorted({x for it in case.get("items", []) for x in ("nospace", "multiline", "inner", "event_last", "crlf") if it.get(x)}
+                    | {x for r in case.get("reqs", []) for x in ("nospace", "multiline") if r.get(x)})
+        return "grammar/" + ("+".join(st) or "plain")
+
+
 class Boundaries(Base):
     name = "boundaries"
 
@@ -517,4 +538,4 @@ def extra(ctx, tier):
 
 
 def suites():
-    return [Establish(), Requests(), Chunking(), Backpressure(), Variants(), Boundaries(), Exits()]
+    return [Establish(), Requests(), Chunking(), Backpressure(), Variants(), Grammar(), Boundaries(), Exits()]
